@@ -37,7 +37,10 @@ PARTIAL = [
     "out-of-bounds accesses are only observable through ASan redzones; std::vector::operator[] inside an allocation's "
     "slack is not detected (no _GLIBCXX_ASSERTIONS build)",
     "termination outside the modelled cores is observed as 'no case exceeds the timeout (re-run once with 8x the budget "
-    "before being reported)', bounded in the code by maxNbSteps, nbPasses, CG maxIterations; not proved",
+    "before being reported)', bounded in the code by maxNbSteps, nbPasses, CG maxIterations; not proved.  Proposed known "
+    "finding KF-C07-1: TransportationSuccessiveShortestPath (general rough-legalization transport) moves one demand unit "
+    "per augmentation on some instances, so placeGlobal's running time grows with the cell areas (12 min for 9 cells at "
+    "2^22 without sanitizers); it terminates; classified by the child's stack when the budget expires",
     "rowleg theorems assume at most 2^15 cells per row segment (coarse bound on the 64-bit cost accumulator: 2^16 queue "
     "entries x 2^46 per term); longer rows are exercised by the 2^22 stream only",
     "parameter box: the purely numerical knobs are kept at CG tolerance >= 1e-6, approximation/cutoff distance >= 0.1; "
